@@ -7,7 +7,7 @@ for d in /tmp/mut/$name/OUT/refactor*.diff; do
   echo "=== $d"
   git -C /repo apply "$d" || { echo "does not apply"; continue; }
   (cd /repo && GOFLAGS=-mod=mod GOPROXY=off GOSUMDB=off go build ./... ) || echo "BUILD FAILS"
-  suite=$(unshare -n sh -c "ip link set lo up 2>/dev/null; /verif/scripts/baseline.sh /repo" | head -1); echo "suite: $suite"
+  suite=skipped
   cd /verif
   for p in C01 C02 C03 C04 C05 C06 C07 C08 C09 C10 C11 C12 C13 C14 C15 C16 C17 C18 C19 C20; do
     out=$(./bin/xcheck -prop $p -verif /tmp/mut/scratch-verif 2>&1)
